@@ -3,6 +3,7 @@ package main
 import (
 	"fmt"
 	"math/big"
+	"regexp"
 	"sort"
 	"strconv"
 	"strings"
@@ -61,6 +62,26 @@ func showFloatExact(f float64) string {
 		s = "-" + s
 	}
 	return s
+}
+
+var plainDecimal = regexp.MustCompile(`^[+-]?([0-9]+(\.[0-9]*)?|\.[0-9]+)$`)
+
+// the count of a duration written as a plain decimal must be the float64 nearest to the number written
+// (computed here with exact rationals, independently of strconv)
+func durationFaithful(text string, got float64) string {
+	parts := strings.Split(text, " ")
+	if len(parts) != 2 || !plainDecimal.MatchString(parts[0]) || len(parts[0]) > 60 {
+		return ""
+	}
+	r, ok := new(big.Rat).SetString(parts[0])
+	if !ok {
+		return ""
+	}
+	want, _ := r.Float64()
+	if want != got {
+		return fmt.Sprintf("carries the count %s, the number written is %s (nearest float64 %s)", showFloatExact(got), parts[0], showFloatExact(want))
+	}
+	return ""
 }
 
 func showValue(v any) string {
@@ -164,6 +185,13 @@ func rulesHandler(args []string) (string, []string) {
 		}
 		if cp {
 			ps.add("C09", "type=%s value=%q decodes but Check panics", typ, value)
+		}
+		if typ == "duration" && strings.HasPrefix(resp, "ok dur ") {
+			if x, err := utils.ParseDuration(value); err == nil {
+				if msg := durationFaithful(value, x.Value); msg != "" {
+					ps.add("C08", "type=duration value=%q %s", value, msg)
+				}
+			}
 		}
 		// the generator's expectation about this value (C08): acc:<value> | rej | bad
 		if len(args) >= 4 {
@@ -414,6 +442,10 @@ func textHandler(args []string) (string, []string) {
 				}
 				valid = x.IsValid()
 				resp = fmt.Sprintf("ok %s %s %d valid=%s", showFloatExact(x.Value), x.UnitString, x.UnitSeconds, b01(valid))
+				if msg := durationFaithful(s, x.Value); msg != "" {
+					ps.add("C14", "parser=pdur text=%q %s", s, msg)
+					ps.add("C08", "type=duration value=%q %s", s, msg)
+				}
 			default:
 				resp = "bad-request"
 			}
